@@ -1,20 +1,34 @@
 #!/bin/bash
-# Builds every check binary once (warms the Go build cache; offline).
+# Builds the framework and every claimed check once (warms the Go build cache; offline), and runs the
+# explorer self-tests. A failure aborts setup.
 cd "$(dirname "$0")"
 export GOFLAGS=-mod=mod GOPROXY=off GOSUMDB=off GOTOOLCHAIN=local
 mkdir -p .work bin evidence
 rc=0
-for d in checks/*/; do
-  id=$(basename $d)
-  [ -f $d/main.go ] || continue
+go build -trimpath -o bin/vinstr ./tools/vinstr || rc=1
+go run ./vrt/selftest || { echo "setup: scheduler self-test failed"; rc=1; }
+build_one() {
+  id=$1
+  d=checks/$id
+  [ -f $d/main.go ] || return 0
   mkdir -p .work/$id
   INSTR=""
   if [ -f $d/instr.txt ]; then
-    go build -trimpath -o bin/vinstr ./tools/vinstr || rc=1
-    bin/vinstr -repo /repo -out .work/$id/instr -list $d/instr.txt -json .work/$id/instr.json > .work/$id/vinstr.log 2>&1 || rc=1
+    bin/vinstr -repo /repo -out .work/$id/instr -list $d/instr.txt -json .work/$id/instr.json > .work/$id/vinstr.log 2>&1 || return 1
     INSTR=.work/$id/instr.json
   fi
   python3 tools/mkoverlay.py /repo $INSTR > .work/$id/overlay.json
-  go build -trimpath -tags verif -overlay .work/$id/overlay.json -o bin/$id ./checks/$id || { echo "setup: build of $id failed"; rc=1; }
+  go build -trimpath -tags verif -overlay .work/$id/overlay.json -o bin/$id ./checks/$id || return 1
+}
+# sequential first build (shared dependency closure), then the rest in parallel
+first=1
+pids=()
+for ID in $(cat checks/ENABLED); do
+  id=$(echo $ID | tr 'A-Z' 'a-z')
+  if [ $first = 1 ]; then build_one $id || { echo "setup: build of $id failed"; rc=1; }; first=0; continue; fi
+  ( build_one $id || { echo "setup: build of $id failed"; exit 1; } ) &
+  pids+=($!)
+  if [ ${#pids[@]} -ge 6 ]; then wait ${pids[0]} || rc=1; pids=("${pids[@]:1}"); fi
 done
+for p in "${pids[@]}"; do wait $p || rc=1; done
 exit $rc
